@@ -164,6 +164,14 @@ def _isinst(I, v, t):
     raise Unsupported('isinstance %s' % n)
 
 
+def b_vars(I, a, k):
+    from .values import ClassRef
+    if len(a) == 1 and isinstance(a[0], ClassRef):
+        # the class's OWN namespace; used for membership tests only (a snapshot dict with concrete keys)
+        return I.st.alloc('dict', dict(a[0].info.attrs))
+    raise Unsupported('vars() of %r' % (a[:1],))
+
+
 def b_hasattr(I, a, k):
     obj, name = a
     try:
@@ -526,6 +534,7 @@ def builtins(I):
     reg('range', b_range)
     reg('isinstance', b_isinstance)
     reg('hasattr', b_hasattr)
+    reg('vars', b_vars)
     reg('getattr', b_getattr)
     reg('setattr', b_setattr)
     reg('iter', b_iter)
